@@ -10,6 +10,7 @@ import (
 	"time"
 
 	z "github.com/Oudwins/zog"
+	"github.com/Oudwins/zog/parsers/zjson"
 )
 
 // ---------------------------------------------------------------------------
@@ -242,6 +243,9 @@ func concInput(in *Input, n *Node, fe string) any {
 		return ""
 	case "bad":
 		return concBad(leafType(n))
+	case "badjson":
+		// a front-end document that does not decode, handed over where a record is expected
+		return zjson.Decode(strings.NewReader(`{"broken": `))
 	case "val":
 		ty := leafType(n)
 		switch in.Rep {
@@ -638,6 +642,12 @@ func (b *builder) build1(n *Node, tmpl []string) z.ZogSchema {
 					s.Max(t.N, o...)
 				case "eq", "len":
 					s.Len(t.N, o...)
+				case "nlen":
+					s.Not().Len(t.N, o...)
+				case "nhas":
+					s.Not().Contains(strings.Repeat("x", t.N), o...)
+				case "has":
+					s.Contains(strings.Repeat("x", t.N), o...)
 				default:
 					panic("string test " + t.Kind)
 				}
